@@ -116,9 +116,13 @@ end
 
 theorem single_eq_of_key {a b : Single} (ha : singleCoherent a) (hb : singleCoherent b)
     (hn : a.name = b.name) (ho : a.op = b.op) (hv : a.value = b.value) (hs : a.swapped = b.swapped) : a = b := by
-  unfold singleCoherent at ha hb
-  rw [hn, ho, hv, hs, hb] at ha
-  exact (Except.ok.inj ha).symm
+  obtain ⟨a', ha1, ha2⟩ := ha
+  obtain ⟨b', hb1, hb2⟩ := hb
+  rw [hn, ho, hv, hs, hb1] at ha1
+  have e : b' = a' := Except.ok.inj ha1
+  have hc : a.c = b.c := by rw [← ha2, ← hb2, e]
+  cases a; cases b
+  simp_all
 
 theorem leaf_eq_of_beq {a b : Leaf} (ha : leafCoherent a) (hb : leafCoherent b) (h : a.beq b = true) : a = b := by
   cases a with
@@ -173,9 +177,8 @@ end
 /-- the executable invariant reflects the stated one -/
 theorem singleCoherent_of_B {s : Single} (h : singleCoherentB s = true) : singleCoherent s := by
   unfold singleCoherentB at h
-  unfold singleCoherent
   split at h
-  · rename_i t ht; rw [ht]; simp at h; rw [h]
+  · rename_i t ht; exact ⟨t, ht, by simpa using h⟩
   · cases h
 
 theorem leafCoherent_of_B {l : Leaf} (h : leafCoherentB l = true) : leafCoherent l := by
